@@ -18,11 +18,24 @@ import trainer_io
 from props.C04 import collect
 
 ID = "C03"
-TRUSTED = ["the composition theorem is as strong as its components: segmentation (C05), counters and files (C06), loaders (C07), "
-           "next (C02), expansion (C04); here they are exercised together on the real code",
-           "str.upper()/lower() tables of the interpreter (case_ok is evaluated per password by the harness)"]
-ASSUMES = ["domain of the property: every letter of the password has a one-to-one upper/lower mapping (case_ok)",
-           "structure without e-mail / website segment"]
+TRUSTED = ["C03_reproduced is ONE theorem over ONE executable pipeline model (coq/theories/Pipeline.v: check_valid, multi-word pass, "
+           "detectors, counters, probability lists, Markov pseudo-count, file names and config lists, the text files, the guesser's "
+           "terminal and base-structure loaders with skip_brute, the next algorithm for any heap meeting pop_ok_okb, the expansion); "
+           "the model is tied to the source by executing it (vm_compute, binary64, finite repr/float() tables of the interpreter) on "
+           "the small training lists and comparing with the real trainer -> guesser: every loaded group, the base-structure list, "
+           "the multiset of guesses",
+           "oracles assumed by C03_reproduced (PipelineDisk.io_ok): float(repr(p)) == p for finite p >= 0 with repr over 0-9.e+-infa, "
+           "the ruleset encoding encodes ASCII, the training passwords and the lower case of what it encodes",
+           "not modelled: OMEN training and its files (with skip_brute they only have to load), config.ini through configparser/json "
+           "(section -> name/directory table is Counters.config_dirs + Pipeline.guesser_sections, exercised by the correspondence), "
+           "decoding of the training file (C19: the model starts from the decoded lines)",
+           "str.upper()/lower()/isalpha()/isdigit()/isupper() tables of the interpreter (gen/Unicode_gen.v; per case for the "
+           "characters of the case); case_ok is also evaluated per password by the harness"]
+ASSUMES = ["domain of the property: every letter of the password has a one-to-one upper/lower mapping (case_ok_pw)",
+           "structure without e-mail / website segment (supported_pw)",
+           "binary64 instance: the computable check f64_arith_ok on the run's own counters (finite counts not above their total, "
+           "P(M) < 1 in binary64, rescaled base probabilities finite; evaluated on every case by the correspondence); the exact-"
+           "rational instance (C03_reproduced_exact, C03_sum_one_Q) needs only 0 < coverage <= 1"]
 
 
 def case_ok(pw):
@@ -81,6 +94,15 @@ def pipeline_case(passwords, enc, cov, g, tree, all_lines):
                 T.clist(unenc, T.cN, "N"), common.cbool(T.surrogate_reason_aborts(enc)), exp))
 
 
+# fixed lists at the edges of the trainer's comparisons (always run through the model):
+# words seen exactly threshold (5) times next to their concatenation; a word one below the threshold; minimal
+# multi-word length; a keyboard walk of the minimal length; years at both ends of a digit run; coverage 1
+CRAFTED = [
+    (["pass"] * 5 + ["word"] * 5 + ["password", "PassWord1", "wordpass!"], "utf-8", 0.6),
+    (["love"] * 4 + ["monkey"] * 5 + ["lovemonkey", "monkeylove", "Monkey12"], "utf-8", 1.0),
+    (["1qaz", "1qaz2wsx", "qwer", "zxcvbn1", "19991", "a2019", "2019a", "x#1", "#12"], "utf-8", 0.9),
+]
+
 PIPE_HEADER = ["From Coq Require Import List NArith ZArith Bool Floats.",
                "From Pcfg Require Import Str TextFile Counters IoCorr Pipeline PipelineCorr.",
                "Import ListNotations.", "Open Scope float_scope.", "Open Scope N_scope.", ""]
@@ -131,13 +153,16 @@ def run(ctx):
     cases = []
     pipe_cases = []
     dist["pipeline_model_runs"] = 0
-    for i in range(nlists):
+    for i in range(nlists + len(CRAFTED)):
         enc = ctx.rng.choice(["utf-8", "utf-8", "latin-1", "cp1251"])
         cov = ctx.rng.choice([0.3, 0.6, 0.9, 0.95, 1.0])
         ngram = ctx.rng.choice([2, 3, 4])
         entries = trainer_io.gen_entries(ctx.rng, enc, n_distinct=ctx.rng.randint(3, 12))
         passwords = trainer_io.flatten(entries)
-        if enc == "utf-8" and i % 3 == 0:
+        if i >= nlists:
+            passwords, enc, cov = CRAFTED[i - nlists]
+            passwords = list(passwords)
+        if enc == "utf-8" and i % 3 == 0 and i < nlists:
             # letters whose case folding differs from their lower case but whose case mapping is one-to-one
             # (Cherokee small letters), Greek and Cyrillic with capitals, a word with a final sigma (outside the domain)
             extra = ctx.rng.sample(["ꭰꭱꭲꭳ1", "ꭰꭱꭲꭳꭴꭵ", "Ꭰꭱꭲꭳ", "Ωμέγα7", "κόσμος", "Привет1", "ÀÉÎõü", "ǆabc"], 4)
